@@ -5,7 +5,7 @@ import indcommon as ic
 import gen_common
 
 PROP = "C10"
-LEAN_MODS = ["Cte.Props.C10"]
+LEAN_MODS = ["Cte.Props.C10", "Cte.Props.C10Mono"]
 HARNESS = "ind"
 N = {"quick": 250, "thorough": 6000}
 CORRESPONDENCES = ["q_soljul_data: q_soljul, Q_soljul, a_wp, four means, per-orientation detail (gains, a, irradiance, three means)"]
